@@ -418,7 +418,7 @@ def run(ctx):
         "edges_in_universe": sum(g.nedges for g in graphs) if not ctx.quick else None,
         "states_in_universes": {g.name: len(g.keys) for g in graphs},
         "edges_by_op_reply": {"%d/%d" % k: v for k, v in sorted(by_kind.items())},
-        "evaluations": summ["lookups"] + 2 * len(svecs) + sum(len(r["q"]) for r in trows),
+        "evaluations": summ["lookups"] + 3 * len(svecs) + sum(len(r["q"]) for r in trows),
         "distinct_nontrivial": nontrivial,
         "rule": "one evaluation = one lookup (Find / FindByName / RangeByName / effective settings) compared with the spec; "
                 "distinct_nontrivial = distinct labelled edges (state, operation, arguments) replayed that change the registry "
